@@ -33,6 +33,7 @@ class Gen:
     def __init__(self, seed, meas=None, hard=False):
         self.r = random.Random(seed)
         self.meas = meas or MEAS
+        self.filter_extra = []     # extra names used only as filters / handle names
         self.hard = hard
 
     # -- points ----------------------------------------------------------
@@ -159,7 +160,7 @@ class Gen:
         return self.simple()
 
     def mfilter(self):
-        return self.r.choice(["~", "~", "~"] + [hx(m) for m in self.meas] + [hx("zz")])
+        return self.r.choice(["~", "~", "~"] + [hx(m) for m in self.meas + self.filter_extra] + [hx("zz")])
 
     # -- updates ---------------------------------------------------------
 
@@ -259,7 +260,7 @@ class Gen:
         pts = [self.point() for _ in range(n)]
         if bad and pts:
             pts.insert(r.randrange(len(pts) + 1), "!")
-        m = r.choice(["~", "~", hx(r.choice(self.meas))])
+        m = r.choice(["~", "~", hx(r.choice(self.meas + self.filter_extra))])
         op = ["ins", m] + pts
         return self.maybe_via(op, m)
 
